@@ -137,3 +137,107 @@ func VerifC08FileNames() {
 		vAssert(last != k, "a generated file name ends in a suffix that go build treats as a constraint: "+fn+".go")
 	}
 }
+
+func init() { vRegister("VerifC08SectionFiles", VerifC08SectionFiles) }
+
+// vEvalFileName evaluates a file name template of DefaultSectionOpts for a name. Only the action
+// forms in use (function applications of snakize/pascalize on .Name) are understood; anything else
+// is reported as not evaluable and left out of the claim.
+func vEvalFileName(tpl, name string) (string, bool) {
+	i := strings.Index(tpl, "{{")
+	if i < 0 {
+		return tpl, true
+	}
+	j := strings.Index(tpl, "}}")
+	if j < i || strings.Contains(tpl[j+2:], "{{") {
+		return "", false
+	}
+	action := strings.NewReplacer("(", " ", ")", " ").Replace(tpl[i+2 : j])
+	toks := strings.Fields(action)
+	if len(toks) == 0 || toks[len(toks)-1] != ".Name" {
+		return "", false
+	}
+	v := name
+	for k := len(toks) - 2; k >= 0; k-- {
+		switch toks[k] {
+		case "snakize":
+			v = GoLangOpts().MangleFileName(v)
+		case "pascalize":
+			v = pascalize(v)
+		default:
+			return "", false
+		}
+	}
+	return tpl[:i] + v + tpl[j+2:], true
+}
+
+// go/build's rule for implicit constraints from file names (goodOSArchFile) plus _test files
+func vBuildConstrained(file string) bool {
+	name := strings.TrimSuffix(file, ".go")
+	if strings.HasSuffix(name, "_test") {
+		return true
+	}
+	i := strings.Index(name, "_")
+	if i < 0 {
+		return false
+	}
+	l := strings.Split(name[i:], "_")
+	n := len(l)
+	in := func(w string, set []string) bool {
+		for _, k := range set {
+			if k == w {
+				return true
+			}
+		}
+		return false
+	}
+	if n >= 2 && in(l[n-2], vKnownOS) && in(l[n-1], vKnownArch) {
+		return true
+	}
+	return n >= 1 && (in(l[n-1], vKnownOS) || in(l[n-1], vKnownArch))
+}
+
+var vEntityNames = []string{"+1", "-1", "1", "pet", "Pet", "linux", "Android", "windows", "test", "my app", "x_test", "ppc64", "campaign_ppc", "a.b", "a-b"}
+
+// C08/C01 (file plan): for the file name templates of every section, evaluated on awkward entity
+// names: the file is not one `go build` leaves out, and two entities with distinct Go names never
+// share a file.
+func VerifC08SectionFiles() {
+	g := &GenOpts{}
+	g.LanguageOpts = GoLangOpts()
+	g.IncludeModel, g.IncludeHandler, g.IncludeParameters, g.IncludeResponses, g.IncludeURLBuilder, g.IncludeSupport, g.IncludeMain = true, true, true, true, true, true, true
+	g.IsClient = vBool2("client")
+	DefaultSectionOpts(g)
+	var sec []TemplateOpts
+	section := vChoice("section", 4)
+	switch section {
+	case 0:
+		sec = g.Sections.Models
+	case 1:
+		sec = g.Sections.Operations
+	case 2:
+		sec = g.Sections.OperationGroups
+	default:
+		sec = g.Sections.Application
+	}
+	n1 := vEntityNames[vChoice("name1", len(vEntityNames))]
+	n2 := vEntityNames[vChoice("name2", len(vEntityNames))]
+	evaluated := 0
+	for _, t := range sec {
+		f1, ok1 := vEvalFileName(t.FileName, n1)
+		f2, ok2 := vEvalFileName(t.FileName, n2)
+		if !ok1 || !ok2 {
+			continue
+		}
+		evaluated++
+		vAssert(!vBuildConstrained(f1), "a planned file name is one go build leaves out of the package: "+f1)
+		// (one run renders a single application: only models, operations and groups come in numbers)
+		if section != 3 && pascalize(n1) != pascalize(n2) && strings.Contains(t.FileName, "{{") {
+			vAssert(f1 != f2, "two entities with different Go names are written to the same file: "+f1)
+		}
+	}
+	vObserve("evaluated", evaluated)
+	if evaluated > 0 {
+		vCover("evaluated")
+	}
+}
